@@ -273,6 +273,11 @@ func (a *jwtAuthenticator) getCacheTTL(key *jose.JSONWebKey) time.Duration {
 		},
 		func() time.Duration { return 0 })
 
+	// the certificate expires within the leeway (or is already expired): the key must not be cached
+	if len(key.Certificates) != 0 && certTTL == 0 {
+		return 0
+	}
+
 	configuredTTL := x.IfThenElseExec(a.ttl != nil,
 		func() time.Duration { return *a.ttl },
 		func() time.Duration { return defaultJWTAuthenticatorTTL })
